@@ -70,9 +70,11 @@ Theorem C15_code_resampling_decisions_are_model : forall (K : Ops) (n m : Z) (oz
              && (if gen_mbr_mask_old n m oz then odd_ok n k else true)
              && (if gen_mbr_mask_new n m oz then odd_ok m k else true)
           then omul (fpow (odiv (fz m) (fz n)) (length k)) (old k) else o0)
-  /\ gen_mbr_scaling_mode_old = 10%Z /\ gen_mbr_scaling_mode_new = 10%Z /\ mode_denoms 10 = (1, 1)%Z.
+  /\ gen_mbr_scaling_mode_old = 10%Z /\ gen_mbr_scaling_mode_new = 10%Z /\ mode_denoms 10 = (1, 1)%Z
+  (* FourierInterpolator divides by the RECONSTRUCTION scaling (half weights on the last axis), all its statements compared as text *)
+  /\ gen_interp_scaling_mode = 11%Z /\ mode_denoms 11 = (2, 1)%Z.
 Proof.
-  intros K n m oz old k. split; [apply resample_coef_tie|]. exact scaling_modes_tie.
+  intros K n m oz old k. split; [apply resample_coef_tie|]. destruct scaling_modes_tie as (A & B & C). repeat split; assumption || reflexivity.
 Qed.
 Print Assumptions C15_code_resampling_decisions_are_model.
 
